@@ -124,11 +124,11 @@ func (f *MemFile) Chown(uid, gid int) error {
 	nd.Lock()
 	defer nd.Unlock()
 
-	if !nd.checkPermission(avfs.OpenWrite, f.vfs.User()) {
+	u := f.vfs.User()
+
+	if !nd.setOwner(uid, gid, u, !f.vfs.HasFeature(avfs.FeatIdentityMgr) || u.IsAdmin()) {
 		return &fs.PathError{Op: op, Path: f.name, Err: f.vfs.err.OpNotPermitted}
 	}
-
-	nd.setOwner(uid, gid)
 
 	return nil
 }
